@@ -13,6 +13,16 @@
 //!                                     through the `lsm` binary):
 //!                                     `W OK w=<entries> d=<entries> in=<hex> out=<hex> disc=<hex>`
 //!                                     | `W OUTOFSYNC` | `W BUILDERR`
+//!   walkm POLHEX NFILES f1:e1 ..      the same, and the order in which the real MergingCursor
+//!                                     yields the entries is printed too (`m=<entries>` after
+//!                                     `W OK`): for inputs in which several files hold an entry
+//!                                     with the same key AND timestamp the tie order is the
+//!                                     cursor's, and the model is then run on that order
+//!   mb TARGET MINIMUM h1:e1 .. hn:en  a real SstMultiBuilder with these file size options fed the
+//!                                     entries in order, split_hint() called before entry i iff
+//!                                     h_i = 1 (what perform_compaction's loop does); seal();
+//!                                     the files are read back in the order seal() returned them:
+//!                                     `M <entries of file 0>|<entries of file 1>|...` | `M ERR`
 //! POLHEX = hex of the policy string (UTF-8).  entry: KEYHEX@TS=VALHEX | KEYHEX@TS~ (tombstone).
 //! A panic anywhere prints `PANIC`.
 use hx::{hex, unhex};
@@ -108,7 +118,7 @@ fn do_gc(t: &[&str]) -> String {
     out.join(" ")
 }
 
-fn do_walk(t: &[&str], dir: &PathBuf) -> String {
+fn do_walk(t: &[&str], dir: &PathBuf, show_merge: bool) -> String {
     let Some(policy) = policy_of(t[1]) else { return "W PARSEERR".to_string() };
     let nfiles: usize = t[2].parse().expect("nfiles");
     let mut files: Vec<Vec<Entry>> = vec![vec![]; nfiles];
@@ -152,12 +162,14 @@ fn do_walk(t: &[&str], dir: &PathBuf) -> String {
     let mut output = sst::Setsum::default();
     let mut written = vec![];
     let mut dropped = vec![];
+    let mut merged = vec![];
     loop {
         cursor.next().expect("next");
         let kvr = match cursor.key_value() {
             Some(v) => v,
             None => break,
         };
+        merged.push(show_entry(kvr.key, kvr.timestamp, kvr.value));
         let retain = if let Some(gcn) = gc_next {
             match gcn.cmp(&KeyRef::from(&kvr)) {
                 Ordering::Less => return "W OUTOFSYNC".to_string(),
@@ -183,13 +195,64 @@ fn do_walk(t: &[&str], dir: &PathBuf) -> String {
     // ---- end of transcription ----
     let _ = std::fs::remove_dir_all(dir);
     format!(
-        "W OK w={} d={} in={} out={} disc={}",
+        "W OK {}w={} d={} in={} out={} disc={}",
+        if show_merge { format!("m={} ", if merged.is_empty() { ".".to_string() } else { merged.join(",") }) } else { String::new() },
         if written.is_empty() { ".".to_string() } else { written.join(",") },
         if dropped.is_empty() { ".".to_string() } else { dropped.join(",") },
         input_setsum.hexdigest(),
         output.hexdigest(),
         discard.hexdigest()
     )
+}
+
+fn do_mb(t: &[&str], dir: &PathBuf) -> String {
+    let target: usize = t[1].parse().expect("target");
+    let minimum: usize = t[2].parse().expect("minimum");
+    let _ = std::fs::remove_dir_all(dir);
+    std::fs::create_dir_all(dir).expect("mkdir");
+    // the setters clamp to >= 4096; the command-line path does not, so tiny files are possible
+    let (ts, ms) = (target.to_string(), minimum.to_string());
+    let options = {
+        use arrrg::CommandLine;
+        SstOptions::from_arguments_relaxed("c05", &["--target-block-size", "64", "--target-file-size", &ts, "--minimum-file-size", &ms]).0
+    };
+    let mut mb = sst::SstMultiBuilder::new(dir.clone(), ".sst".to_string(), options);
+    for x in &t[3..] {
+        let c = x.find(':').expect("hint:");
+        let (k, ts, v) = parse_entry(&x[c + 1..]);
+        if &x[..c] == "1" && mb.split_hint().is_err() {
+            return "M ERR".to_string();
+        }
+        let r = match &v {
+            Some(v) => mb.put(&k, ts, v),
+            None => mb.del(&k, ts),
+        };
+        if r.is_err() {
+            return "M ERR".to_string();
+        }
+    }
+    let Ok(paths) = mb.seal() else { return "M ERR".to_string() };
+    let mut files = vec![];
+    for path in paths.iter() {
+        let Ok(sst) = Sst::<sst::file_manager::FileHandle>::new(SstOptions::default(), path) else { return "M ERR".to_string() };
+        let mut c = sst.cursor();
+        if c.seek_to_first().is_err() {
+            return "M ERR".to_string();
+        }
+        let mut es = vec![];
+        loop {
+            if c.next().is_err() {
+                return "M ERR".to_string();
+            }
+            match c.key_value() {
+                Some(kv) => es.push(show_entry(kv.key, kv.timestamp, kv.value)),
+                None => break,
+            }
+        }
+        files.push(es.join(","));
+    }
+    let _ = std::fs::remove_dir_all(dir);
+    format!("M {}", files.join("|"))
 }
 
 fn main() {
@@ -215,7 +278,9 @@ fn main() {
                     }
                 }
                 "gc" => do_gc(&t),
-                "walk" => do_walk(&t, &dir),
+                "walk" => do_walk(&t, &dir, false),
+                "walkm" => do_walk(&t, &dir, true),
+                "mb" => do_mb(&t, &dir),
                 _ => panic!("bad op"),
             }
         }));
